@@ -2,7 +2,7 @@
 crate calls.  This table is part of the trusted base; the evidence lists the models a run used."""
 import re
 
-from .absint import (pinned, I, Fl, Ag, En, Sq, Pt, Top, Md, UNIT, BOT, Bot, Unsupported, Diverge, INF, ISIZE_MAX, USIZE_MAX, map_value)
+from .absint import (tl, EMPTY, pinned, I, Fl, Ag, En, Sq, Pt, Top, Md, UNIT, BOT, Bot, Unsupported, Diverge, INF, ISIZE_MAX, USIZE_MAX, map_value)
 
 NONE, SOME = 0, 1
 OK, ERR = 0, 1
@@ -667,7 +667,7 @@ def import_value(E, st, src, v):
     """copy a value that lives in state `src` into state `st` (fresh vids, same intervals)"""
     if type(v) is Pt:
         v = deref(E, src, v)
-    return map_value(v, lambda i: E.ctx.mk_int(st, *src.itv[i.vid], i.ty, taint=(i.vid in src.taint)))
+    return map_value(v, lambda i: E.ctx.mk_int(st, *src.itv[i.vid], i.ty, taint=tl(src, i.vid)))
 
 
 def pure_env(E, st, it):
@@ -952,7 +952,7 @@ def m_iter_sum(E, st, fr, bi, callee, args, dest_ty):
     tlo, thi = t.int_range()
     ok = tlo <= slo and shi <= thi
     obligation(E, fr, bi, "Overflow", ok, f"sum of {st.itv[n.vid]} terms in [{lo},{hi}]", "Iterator::sum")
-    z = E.ctx.mk_int(st, max(slo, tlo), min(shi, thi), dest_ty, taint=(item.vid in st.taint))
+    z = E.ctx.mk_int(st, max(slo, tlo), min(shi, thi), dest_ty, taint=tl(st, item.vid))
     st.prov[z.vid] = ("sum", (), None)
     return ret1(z, st)
 
@@ -1129,7 +1129,7 @@ def m_int_unary(kind):
                 r = (-hi, -lo)
             else:
                 r = (0, max(-lo, hi))
-            z = E.ctx.mk_int(st, r[0], r[1], dest_ty, taint=a.vid in st.taint)
+            z = E.ctx.mk_int(st, r[0], r[1], dest_ty, taint=tl(st, a.vid))
             st.prov[z.vid] = ("abs", (a.vid,), None)
             return ret1(z, st)
         if kind == "ilog2":
@@ -1215,13 +1215,14 @@ def m_from_bytes_int(endian):
         if s.head and n is not None and len(s.head) == n:
             order = range(n) if endian == "be" else range(n - 1, -1, -1)
             lo = hi = 0
-            taint = False
+            taint = None
             for k in order:
                 b = s.head[k]
                 bl, bh = st.itv[b.vid]
                 lo = (lo << 8) | bl
                 hi = (hi << 8) | bh
-                taint = taint or b.vid in st.taint
+                tb_ = tl(st, b.vid)
+                taint = taint if tb_ is None else ((taint or EMPTY) | tb_)
             if tlo <= lo and hi <= thi:
                 return ret1(E.ctx.mk_int(st, lo, hi, dest_ty, taint=taint), st)
         return ret1(E.ctx.top_int(st, dest_ty, taint=True), st)
